@@ -40,12 +40,15 @@ CONSTANTS
   HandleOps,           \* subset of {"clone","drop","down","up","alive","ident"}
   DeadlockDetection,   \* BOOLEAN: feature deadlock-detection
   EdgeClearedOnReply,  \* BOOLEAN: wait-for edge removed when the reply is sent (F1 fixed)
-  MetricsOn            \* BOOLEAN: feature metrics (extra ActorRef clone during a handler)
+  MetricsOn,           \* BOOLEAN: feature metrics (extra ActorRef clone during a handler)
+  MaxRun,              \* bound on on_run invocations per actor (keeps the model finite)
+  MaxProbes            \* bound on pure observations (is_alive / identity), which do not change state
 
 Actors  == {ActorSeq[i] : i \in DOMAIN ActorSeq}
 Clients == {ClientSeq[i] : i \in DOMAIN ClientSeq}
 Owners == Actors \cup Clients
 ActorIdx(a) == CHOOSE i \in DOMAIN ActorSeq : ActorSeq[i] = a
+ClientIdx(c) == CHOOSE i \in DOMAIN ClientSeq : ClientSeq[i] = c
 OpIds == 1..MaxOps
 HIds  == 1..MaxH
 
@@ -74,7 +77,9 @@ InitState ==
    O |-> [o \in OpIds |-> NoOpRec],
    C |-> [c \in Clients |-> 0],
    wf |-> [a \in Actors |-> ""],         \* wait-for graph: caller |-> callee ("" = no edge)
-   dlc |-> 0]                            \* dead-letter counter
+   dlc |-> 0,                            \* dead-letter counter
+   used |-> 0,
+   pr |-> 0]                             \* clients ClientSeq[1..used] have issued an op (symmetry reduction)
 
 -----------------------------------------------------------------------------
 (* small helpers *)
@@ -411,6 +416,7 @@ CmdEnabled(s, cmd) ==
   /\ CASE cmd.c = "spawn" -> /\ ~s.A[cmd.a].sp /\ s.nextH <= MaxH /\ cmd.cap \in CapChoices
                              /\ \A i \in DOMAIN ActorSeq : i < ActorIdx(cmd.a) => s.A[ActorSeq[i]].sp
        [] cmd.c = "start" -> /\ s.C[cmd.cl] = 0 /\ s.H[cmd.h].k = "s" /\ s.nextOp <= MaxOps
+                             /\ ClientIdx(cmd.cl) <= s.used + 1     \* clients are interchangeable
                              /\ cmd.kind \in OpKinds
                              /\ (cmd.kind \in MsgKinds => s.nextM <= MaxMsg)
                              /\ (cmd.kind \in TimedKinds => cmd.d \in Timeouts /\ s.now + cmd.d <= MaxTime)
@@ -422,6 +428,7 @@ CmdEnabled(s, cmd) ==
             /\ \/ cmd.dir = "none" /\ Woken(s, cmd.a)
                \/ /\ A.pc \in {"Start","Handler","Stop","Run"} /\ A.hop = 0
                   /\ cmd.dir \in OutsOf(A.pc)
+                  /\ (A.pc = "Run" /\ cmd.dir = "true" => A.inst < MaxRun)
        [] cmd.c = "nest"  ->
             LET A == s.A[cmd.a] IN
             /\ A.sp /\ A.pc \in NestHooks /\ A.hop = 0 /\ cmd.kind \in NestKinds
@@ -429,6 +436,8 @@ CmdEnabled(s, cmd) ==
             /\ (cmd.kind \in TimedKinds => cmd.d \in Timeouts /\ s.now + cmd.d <= MaxTime)
             /\ (cmd.kind \notin TimedKinds => cmd.d = 0)
        [] cmd.c = "advance" -> /\ cmd.d >= 1 /\ s.now + cmd.d <= MaxTime
+                               \* a client collects every result that is ready before time moves on
+                               /\ \A c \in Clients : s.C[c] = 0 \/ ~Pollable(s, s.C[c])
                                \* only useful when some deadline lies ahead
                                /\ \E o \in OpIds : s.O[o].ph \in {"wait","granted","reply"}
                                                    /\ s.O[o].dl > s.now
@@ -437,8 +446,8 @@ CmdEnabled(s, cmd) ==
                              /\ ~\E o \in OpIds : s.O[o].h = cmd.h /\ s.O[o].ph \in {"new","wait","granted","reply"}
        [] cmd.c = "down"  -> "down" \in HandleOps /\ s.H[cmd.h].k = "s" /\ s.nextH <= MaxH
        [] cmd.c = "up"    -> "up" \in HandleOps /\ s.H[cmd.h].k = "w" /\ s.nextH <= MaxH
-       [] cmd.c = "alive" -> "alive" \in HandleOps /\ s.H[cmd.h].k \in {"s","w"}
-       [] cmd.c = "ident" -> "ident" \in HandleOps /\ s.H[cmd.h].k \in {"s","w"}
+       [] cmd.c = "alive" -> "alive" \in HandleOps /\ s.H[cmd.h].k \in {"s","w"} /\ s.pr < MaxProbes
+       [] cmd.c = "ident" -> "ident" \in HandleOps /\ s.H[cmd.h].k \in {"s","w"} /\ s.pr < MaxProbes
        [] cmd.c = "quiesce" ->
             /\ \A c \in Clients : s.C[c] = 0 \/ ~Pollable(s, s.C[c])
             /\ \A a \in Actors : s.A[a].sp =>
@@ -457,7 +466,8 @@ DoRaw(s, cmd) ==
     [] cmd.c = "start" ->
          LET s1 == NewOp(s, cmd.cl, cmd.kind, cmd.h, cmd.d)
              o  == s.nextOp
-         IN  FirstPoll([s1 EXCEPT !.C[cmd.cl] = o], o)
+         IN  FirstPoll([s1 EXCEPT !.C[cmd.cl] = o,
+                                  !.used = IF ClientIdx(cmd.cl) > @ THEN ClientIdx(cmd.cl) ELSE @], o)
     [] cmd.c = "poll"  -> PollOp(s, s.C[cmd.cl])
     [] cmd.c = "burst" ->
          LET a == cmd.a  A == s.A[a] IN
@@ -487,10 +497,11 @@ DoRaw(s, cmd) ==
                ELSE R(s, << [e |-> "Up", h |-> cmd.h, h2 |-> 0, a |-> a, ok |-> FALSE] >>)
     [] cmd.c = "alive" ->
          LET a == s.H[cmd.h].a IN
-         R(s, << [e |-> "Alive", h |-> cmd.h, a |-> a, k |-> s.H[cmd.h].k,
+         R([s EXCEPT !.pr = @ + 1], << [e |-> "Alive", h |-> cmd.h, a |-> a, k |-> s.H[cmd.h].k,
                   val |-> IF s.H[cmd.h].k = "s" THEN Alive(s, a) ELSE Strong(s, a) > 0] >>)
     [] cmd.c = "ident" ->
-         R(s, << [e |-> "Ident", h |-> cmd.h, a |-> s.H[cmd.h].a, id |-> s.A[s.H[cmd.h].a].id] >>)
+         R([s EXCEPT !.pr = @ + 1],
+           << [e |-> "Ident", h |-> cmd.h, a |-> s.H[cmd.h].a, id |-> s.A[s.H[cmd.h].a].id] >>)
     [] cmd.c = "quiesce" ->
          R([s EXCEPT !.q = TRUE],
            << [e |-> "Quiescent",
@@ -499,9 +510,18 @@ DoRaw(s, cmd) ==
                unjoined |-> SelectSeq(ActorSeq, LAMBDA a : s.A[a].sp /\ s.A[a].pc # "Done"),
                now |-> s.now] >>)
 
+\* forget the details of ops that are finished and whose message is no longer anywhere
+\* (pure state-space reduction: nothing reads those fields again)
+Forget(s) ==
+  LET live == UNION {{s.A[a].mbox[i] : i \in 1..Len(s.A[a].mbox)} \cup {s.A[a].cur} : a \in Actors}
+  IN  [s EXCEPT !.O = [o \in OpIds |->
+          IF s.O[o].ph \in {"done","dropped"} /\ o \notin live
+            THEN [NoOpRec EXCEPT !.ph = "done"] ELSE s.O[o]]]
+
 \* every command is followed by one Sample per spawned actor (verification accessor H2)
 Do(s, cmd) ==
-  LET r == DoRaw(s, cmd)
+  LET r0 == DoRaw(s, cmd)
+      r  == R(Forget(r0.s), r0.evs)
       sp == SelectSeq(ActorSeq, LAMBDA a : r.s.A[a].sp)
   IN  R(r.s, r.evs \o [i \in 1..Len(sp) |-> Sample(r.s, sp[i])])
 
